@@ -371,7 +371,7 @@ func (prop) Run(ctx *fw.Ctx, i int) fw.Result {
 			}
 			cap = 30
 			if ctx.Thorough() {
-				cap = 80
+				cap = 60
 			}
 			res.Add("shapes", "depth-race")
 		}
